@@ -2,7 +2,6 @@
 PENDING.update({
  "C02": "check not built yet in this round (planned: builder over a fault-injecting sink, DESIGN section 4)",
  "C08": "check not built yet in this round (planned: zonestore simulation, DESIGN section 4)",
- "C09": "check not built yet in this round (planned: zonestore simulation, DESIGN section 4)",
  "C10": "check not built yet in this round (planned: xfr simulation, DESIGN section 4)",
  "C11": "check not built yet in this round (planned: tsig simulation, DESIGN section 4)",
  "C14": "check not built yet in this round (planned: validator simulation, DESIGN section 4)",
@@ -19,3 +18,9 @@ claim("C20", "exploration",
       "Trusted: tokio's paused clock, moka as a map with eviction (a miss is always acceptable), the upstream stub and the independent classification/aging model in /verif/sim. AA clearing and the stored header's ID are documented cache behaviour and accepted.",
       "deterministic simulation on a virtual clock with history checking against a log-based reference model",
       "DESIGN.md section 4, C20")
+
+claim("C09", "exploration",
+      "Seeded exploration of reader/writer interleavings at operation granularity over the real in-memory zone store: pinned readers re-observe walk() and query answers while writers (low-level interface and ZoneUpdater) update, remove, replace, commit with/without serial bump, or abort by drop; new readers must walk exactly the last committed content of a multi-version model, their answers must consist of that version's records, writers must be serialised, aborts invisible. Evidence, not proof; one known finding (unversioned node creation visible to pinned readers) is reported as KNOWN-FINDING.",
+      "Interleavings are chosen at API-call granularity on one thread; lock-level schedules inside one zone operation (parking_lot RwLocks, real threads) are not explored. The content model covers plain RRset operations. Trusted: tokio::sync::Mutex, the model and observers in /verif/sim.",
+      "deterministic simulation (seeded task scheduler) with a multi-version reference model and self-consistency of pinned readers",
+      "DESIGN.md section 4, C08/C09")
